@@ -40,6 +40,12 @@ def run(ctx: Ctx):
     ctx.guarded(sig_agree, ctx)
     ctx.guarded(call_binds, ctx)
     ctx.guarded(option_live, ctx)
+    res.rule("SKIP-INDEX", "in khatri_rao / kronecker (both backends) and sample_khatri_rao the filter that drops index skip_matrix iterates over the list parameter as given (not re-ordered or re-built before)", floor=5)
+    ctx.guarded(skip_index, ctx)
+    from .homog import run_homogeneity
+
+    res.rule("HOMOGENEITY", "dimensional analysis of MTTKRP (core, einsum and memory-efficient variants): the result is homogeneous of degree 1 in the tensor, 1 in the weights when given, and 1 in every factor except the skipped mode", floor=6)
+    ctx.guarded(run_homogeneity, ctx, "HOMOGENEITY", ("tensorly.tenalg.",))
 
 
 def registry(ctx: Ctx):
@@ -267,6 +273,66 @@ def dependent_returns(fnode, roots, seeds=None):
 
     block(fnode.body, set(roots), False)
     return ever, [s for s, isbad in bad.values() if isbad]
+
+
+def skip_index(ctx: Ctx):
+    """`skip_matrix=k` must skip the k-th matrix *as given*: the filter that drops index k
+    iterates over the list parameter itself, not over a re-ordered / re-built list."""
+    repo, res = ctx.repo, ctx.res
+    funcs = []
+    for nm in ("khatri_rao", "kronecker"):
+        for be in ("core", "einsum"):
+            f = repo.tenalg_impls[be].get(nm)
+            if f is not None:
+                funcs.append(f)
+    funcs.append(repo.func("tensorly.decomposition._cp.sample_khatri_rao"))
+    for f in funcs:
+        if "skip_matrix" not in f.all_params:
+            raise AnalysisError(f"SKIP-INDEX: {f.qname} lost its skip_matrix option")
+        lst = f.pos_params[0]
+        filters = []
+
+        def is_filter(v):
+            if isinstance(v, ast.ListComp) and len(v.generators) == 1:
+                g = v.generators[0]
+                return any(isinstance(c, ast.Compare) and "skip_matrix" in names_in(c) for c in g.ifs)
+            return False
+
+        reassigned = [False]
+        found = []
+
+        def walk(stmts, dirty):
+            for st in stmts:
+                if isinstance(st, ast.Assign):
+                    if is_filter(st.value):
+                        src_names = names_in(st.value.generators[0].iter) | {n.id for n in ast.walk(st.value.elt) if isinstance(n, ast.Name)}
+                        found.append((st, dirty, lst in src_names))
+                    if any(is_name_(t, lst) for t in st.targets):
+                        dirty = True
+                elif isinstance(st, ast.AugAssign) and is_name_(st.target, lst):
+                    dirty = True
+                elif isinstance(st, ast.Expr) and isinstance(st.value, ast.Call) and isinstance(st.value.func, ast.Attribute) and is_name_(st.value.func.value, lst) and st.value.func.attr in ("reverse", "sort", "append", "insert", "pop", "remove", "extend"):
+                    dirty = True
+                elif isinstance(st, ast.If):
+                    a = walk(st.body, dirty)
+                    b = walk(st.orelse, dirty)
+                    dirty = a or b
+                elif isinstance(st, (ast.For, ast.While, ast.With, ast.Try)):
+                    dirty = walk(getattr(st, "body", []), dirty) or dirty
+            return dirty
+
+        walk(f.node.body, False)
+        if not found:
+            raise AnalysisError(f"SKIP-INDEX: the skip_matrix filter vanished from {f.qname}")
+        for st, dirty, uses_param in found:
+            ok = uses_param and not dirty
+            res.instance("SKIP-INDEX", f"{f.qname}: {src(st)[:70]}", sample={"filters_the_parameter": uses_param, "parameter_rebuilt_before": dirty})
+            if not ok:
+                ctx.finding("SKIP-INDEX", f, st, f"`skip_matrix` is applied to `{lst}` after it was re-ordered / re-built (or to another list): skip_matrix=k no longer skips the k-th matrix the caller passed", construct=f"{src(st)[:90]} on a modified `{lst}`")
+
+
+def is_name_(n, name):
+    return isinstance(n, ast.Name) and n.id == name
 
 
 def option_live(ctx: Ctx):
